@@ -129,8 +129,10 @@ def run(ctx):
     ph0 = cases[6][1]
     pws = ["TREZOR\n", "TREZOR\r\n", "TREZOR\r", "\n", " TREZOR", "TREZOR ", "\tx\t", "a\nb", "\u3000x\u3000", "TREZOR",
            "-", "--", "-x", "--password", "- ", "@file", "/dev/stdin", "~", "$HOME", "%s", "\\n"]
-    runs = [dict(args=["export", "--mnemonic", ph0, "--password=" + pw]) for pw in pws] + [dict(args=["export", "--mnemonic", ph0], env=dict(PASSWORD=pw)) for pw in pws]
-    for rn, r, pw in zip(runs, ctx.cli(runs), pws + pws):
+    sep = [pw for pw in pws + ["@home", "@", "@@", "@/etc/passwd", "#x", "%PATH%", "*"] if not pw.startswith("-")]
+    runs = [dict(args=["export", "--mnemonic", ph0, "--password=" + pw]) for pw in pws] + [dict(args=["export", "--mnemonic", ph0], env=dict(PASSWORD=pw)) for pw in pws] + \
+           [dict(args=["export", "--mnemonic", ph0, "--password", pw]) for pw in sep]
+    for rn, r, pw in zip(runs, ctx.cli(runs), pws + pws + sep):
         ctx.count("cli/password-verbatim")
         ctx.distinct(("clipw", pw, "env" in rn))
         key = pyref.bip32_derive(pyref.bip39_seed(ph0, pw), [0x8000002C, 0x8000003C, 0x80000000, 0, 0])
